@@ -38,6 +38,7 @@ def check(model, tier):
     # every Materialization must reach the arm that caches (not a narrower pattern that lets some fall to a generic arm)
     _dispatch.r08_1_totality(ctx, rule="R10.9", scope="iteration")
     _dispatch.r08_1_totality(ctx, rule="R10.10", scope="generic")
+    _dispatch.r_execute_direct_operands(ctx, "R10.11")
     run.assume("CPython attribute semantics; code outside the package does not call object.__setattr__ on relations")
     run.assume("single-threaded histories (the property does not quantify over schedules)")
     from ..rules.foundation import run_foundation
